@@ -16,6 +16,8 @@ Check C02_fragmentation_driver_loop : forall fuel steps bufs last bs,
   encode_seq fuel steps bufs last = Ok (Some bs) -> flatten steps = Ok bs.
 Check C02_unfragmented : forall steps bs fill cap,
   flatten steps = Ok bs -> 4 <= cap -> fill + len bs + 4 <= cap -> encode_call steps fill cap = Ok (bs, []).
+Check C02_complete_when_all_written : forall steps fill cap out rest,
+  encode_call steps fill cap = Ok (out, rest) -> flatten steps = Ok out -> rest = [].
 Check C02_Pingreq : forall v r,
   exists bs, impl_encode_all v Pingreq r = Ok bs /\ spec_decode v bs = Some (canon v r Pingreq, []).
 Check C02_Puback_V5 : forall a r, valid V5 r (Puback a) = true ->
@@ -63,6 +65,7 @@ Print Assumptions C02_fragmentation_progress.
 Print Assumptions C02_fragmentation_any_sequence.
 Print Assumptions C02_fragmentation_driver_loop.
 Print Assumptions C02_unfragmented.
+Print Assumptions C02_complete_when_all_written.
 Print Assumptions C02_Pingreq.
 Print Assumptions C02_Puback_V5.
 Print Assumptions C02_Pubrec_V5.
